@@ -22,6 +22,8 @@ type HItem struct {
 	Typ     int      `json:"typ"`
 	Default []string `json:"default"` // tokens; single-valued types: exactly one
 	Hide    bool     `json:"hide"`
+	// EnvSep separates the names of the environment list ("" = one blank; any white space separates names)
+	EnvSep string `json:"env_sep,omitempty"`
 }
 
 // HSub is a declared subcommand.
@@ -95,7 +97,11 @@ func declareHelpItem(c *cli.Cmd, it *HItem) {
 		}
 	}()
 	name := strings.Join(it.Names, " ")
-	env := strings.Join(it.Envs, " ")
+	sep := it.EnvSep
+	if sep == "" {
+		sep = " "
+	}
+	env := strings.Join(it.Envs, sep)
 	d := typedDefault(it.Typ, it.Default)
 	switch it.Typ {
 	case TBool:
@@ -597,6 +603,7 @@ func GenHelpCase(t *rapid.T) *HelpCase {
 			mkEnvs(it, func() string { return "77.25" })
 		}
 		it.Hide = chance(t, 1, 3, "hide")
+		it.EnvSep = rapid.SampledFrom([]string{"", "", "", "\t", "\n", "  ", " \t "}).Draw(t, "envsep")
 	}
 	na := rapid.IntRange(0, 4).Draw(t, "nargs")
 	no := rapid.IntRange(0, 5).Draw(t, "nopts")
@@ -605,6 +612,8 @@ func GenHelpCase(t *rapid.T) *HelpCase {
 	ai, oi := 0, 0
 	letters := rapid.Permutation([]string{"a", "b", "c", "d", "e", "f", "g", "i", "j", "k", "m", "n", "A", "B", "C"}).Draw(t, "letters")
 	li := 0
+	nonASCII := 0
+	nonASCIINames := []string{"é", "ü", "ñ", "ß", "ø", "å"}
 	for _, idx := range order {
 		if idx < na {
 			it := HItem{IsArg: true, Names: []string{fmt.Sprintf("QARG%d", ai)}, Desc: mkDesc()}
@@ -618,6 +627,10 @@ func GenHelpCase(t *rapid.T) *HelpCase {
 			if chance(t, 1, 2, "short") && li < len(letters) {
 				it.Names = append(it.Names, letters[li])
 				li++
+			} else if nonASCII < len(nonASCIINames) && chance(t, 1, 10, "nonascii") {
+				// one character, two bytes: by the library's rule (more than one byte) a long name
+				it.Names = append(it.Names, nonASCIINames[nonASCII])
+				nonASCII++
 			} else {
 				wc++
 				it.Names = append(it.Names, fmt.Sprintf("qlng%dz", wc))
